@@ -457,14 +457,19 @@ class Check(object):
             return 1
         if self.errors:
             return 3
-        if self.undecided or failed and not self.known_hits:
-            # failed-but-not-reported obligations are undecided ones
-            unreported = [f for f in failed
-                          if not any(v['obligation'] == f[0]
-                                     for v in self.violations)
-                          and not self.match_known(f[0])]
-            if self.undecided or unreported:
-                for f in unreported:
-                    print('UNDECIDED obligation=%s status=%s' % (f[0], f[1]))
-                return 2
+        # failed-but-not-reported obligations are undecided ones
+        known_obls = set(k.get('obligation') for k, _ in self.known_hits)
+        unreported = [f for f in failed
+                      if not any(v['obligation'].split('@')[0] ==
+                                 f[0].split('@')[0] for v in self.violations)
+                      and f[0].split('@')[0] not in known_obls]
+        if self.undecided or unreported:
+            shown = set()
+            for f in unreported:
+                b = f[0].split('@')[0]
+                if b in shown:
+                    continue
+                shown.add(b)
+                print('UNDECIDED obligation=%s status=%s' % (f[0], f[1]))
+            return 2
         return 0
